@@ -476,6 +476,10 @@ val is_lit : node -> bool
 
 val is_ident : node -> bool
 
+val is_leaf_kind : kind -> bool
+
+val leaf : node -> bool
+
 val gen_DATADOG_VAR_PREFIX : char list
 
 val gen_DD_GLOBAL_NAMESPACE : char list
@@ -943,6 +947,7 @@ type opclass =
 | OOptChain
 | OUnary
 | OArrow
+| OLeaf
 | OOther
 
 val classify : node -> opclass
